@@ -25,6 +25,10 @@ an in-process server; besides the ops above (no reopen) they are reached through
   ecol <id> <attrs>                SetColumnAttrs(id, ...)                                    -> ok
   erowget <id>                     Row(f=id): the attributes of the result; handle #k like get -> attrs
   ediff <S> <T>                    S in {2,3}: Field/IndexAttrDiff with the blocks of store T  -> id{attrs} ... | -
+  equery <r|c><id>:<attrs>|...     ONE query of SetRowAttrs (r) / SetColumnAttrs (c) calls in this order, rows and
+                                   columns may repeat; SetRowAttrs only = the bulk path of the executor   -> ok
+  ecolget                          Row(f=7) with columnAttrs=true: row attrs (a handle), then the attribute sets of
+                                   its columns 0,1,99,100,101,250 that have attributes (each a handle) -> attrs id{attrs} ...
   e2e attrs: keys [a-z]+, values i<int> s<hex of [a-z0-9]+> b0 b1 f3ff8000000000000 fc002000000000000 ~
 `#spec` carries the answer of Spec (finite maps, no cache / heap / cursor).
 -/
@@ -277,6 +281,45 @@ def step (st : St) (ws : List String) : St × Ans :=
       let (sp', sok) := Spec.set (st.spec s) id m
       ({ w := w', sp := st.sp.set s sp' }, ans2 (okS ok) (okS sok) op)
     | _, _ => bad
+  | ["equery", q] =>
+    let parsed := (q.splitOn "|").mapM (fun part =>
+      match part.splitOn ":" with
+      | [tgt, a] =>
+        match tgt.toList with
+        | 'r' :: ds => do pure (true, ← (String.ofList ds).toNat?, ← parseAttrs a)
+        | 'c' :: ds => do pure (false, ← (String.ofList ds).toNat?, ← parseAttrs a)
+        | _ => none
+      | _ => none)
+    match parsed with
+    | some calls =>
+      if calls.length > 8 ∨ !calls.all (fun c => e2eOK c.2.2 && c.2.1 < 2 ^ 62) then bad else
+      -- specification: the calls one after the other, each a single update
+      let spAll := calls.foldl (fun (acc : List Spec.SMap × Bool) c =>
+        let s := if c.1 then 2 else 3
+        let r := Spec.set (acc.1.getD s []) c.2.1 c.2.2
+        (acc.1.set s r.1, acc.2 && r.2)) (st.sp, true)
+      if calls.all (·.1) then
+        -- executeBulkSetRowAttrs: accumulate per row, then one SetBulkAttrs
+        let (w', ok) := setBulkAttrs st.w 2 (mergeCalls [] (calls.map (·.2)))
+        ({ w := w', sp := spAll.1 }, ans2 (okS ok) (okS spAll.2) "equery-bulk")
+      else
+        let (w', ok) := calls.foldl (fun (acc : World × Bool) c =>
+          let r := setAttrs acc.1 (if c.1 then 2 else 3) c.2.1 c.2.2
+          (r.1, acc.2 && r.2)) (st.w, true)
+        ({ w := w', sp := spAll.1 }, ans2 (okS ok) (okS spAll.2) "equery")
+    | none => bad
+  | ["ecolget"] =>
+    let (w1, h) := attrs st.w 2 7
+    let rowS := showAttrs (w1.obj h)
+    let (w2, sets) := [0, 1, 99, 100, 101, 250].foldl (fun (acc : World × List (Nat × AttrMap)) id =>
+      let (w', hc) := attrsObj acc.1 3 id
+      let m := w'.obj hc
+      if m = [] then (w', acc.2) else ({ w' with held := w'.held ++ [hc] }, acc.2 ++ [(id, m)])) (w1, [])
+    let specSets := [0, 1, 99, 100, 101, 250].filterMap (fun id =>
+      let m := Spec.get (st.spec 3) id
+      if m = [] then none else some (id, m))
+    ({ st with w := w2 }, ans2 (rowS ++ " " ++ showBData sets)
+      (showAttrs (Spec.get (st.spec 2) 7) ++ " " ++ showBData specSets) "ecolget")
   | ["ebulk", b] =>
     match parseBulk b with
     | some m =>
